@@ -13,6 +13,9 @@ QUICK = dict(Mode="leaf", Depth=2, Width=2, NodeKinds={"tuple", "dict"}, AtomSet
 # leaves that are EQUAL but of different types (7 and 7.0), empty arrays (an axis bound to 0), wider containers
 EQUAL_EMPTY = dict(Mode="leaf", Depth=1, Width=3, NodeKinds={"tuple", "list"}, AtomSet={"int", "flt", "arr0", "arr3"},
                    SmallDepth=1, LeafSet={"int", "arrA", "uAi", "ptA", "ptI", "any", "arrV"}, MemoSet={"empty", "a0", "a3"})
+# registered nodes that are themselves array-like (leaves for array leaf types over Any, containers otherwise)
+ARRAY_NODES = dict(Mode="leaf", Depth=2, Width=2, NodeKinds={"tuple", "acust"}, AtomSet={"int", "arr2", "arr3"}, SmallDepth=1,
+                   LeafSet={"arrAnyA", "arrAnyV", "ptAnyA", "uAnyAi", "arrA", "any", "int"}, MemoSet={"empty", "a2", "a3"})
 THOROUGH = [
     dict(Mode="leaf", Depth=2, Width=2, NodeKinds={"tuple", "list", "dict"}, AtomSet={"int", "str", "arr2", "arr3"},
          SmallDepth=1, LeafSet={"int", "str", "tup2", "any", "arrA", "arrV", "uAi", "tupA", "ptA", "uis", "ptptA", "ptI", "utA"},
@@ -86,7 +89,8 @@ def main(tier):
     try:
         n, nb = P.run_table(chk, "C08", QUICK, "quick", P.LEAF_INVS)
         n1, nb1 = P.run_table(chk, "C08", EQUAL_EMPTY, "equal_empty", P.LEAF_INVS)
-        nb += nb1
+        n2_, nb2_ = P.run_table(chk, "C08", ARRAY_NODES, "array_nodes", P.LEAF_INVS)
+        nb += nb1 + nb2_
         bare_and_deep(chk, 3000 if tier == "quick" else 40000, chk.seed)
         if tier == "thorough":
             from . import suite
